@@ -5,7 +5,7 @@
 From Coq Require Import ZArith List Bool Lia.
 Import ListNotations.
 Require Import Base.Py Base.ZList Gen.Gen_tags Model.Splice Model.Id3Util Model.Fam_id3f
-  Proofs.Fam_id3f_base Proofs.Fam_id3f_save Proofs.Fam_id3f_props Proofs.Fam_id3f_examples.
+  Base.FileModel Proofs.FileLemmas Proofs.Fam_id3f_base Proofs.Fam_id3f_save Proofs.Fam_id3f_props Proofs.Fam_id3f_examples Proofs.Fam_id3f_prog.
 Open Scope Z_scope.
 
 (* strict segmentation before and after: payload byte-identical, ID3v1 slot as selected by the v1 option *)
@@ -35,6 +35,15 @@ Print Assumptions C02_id3f_save_frame.
 Theorem C02_id3f_v1_step_frame : forall g mode vb st, ztake (zlen g - 128) (save_v1 g mode vb st) = ztake (zlen g - 128) g.
 Proof. exact save_v1_frame. Qed.
 Print Assumptions C02_id3f_v1_step_frame.
+
+(* the file program ID3.save runs (regenerated insert_bytes / delete_bytes of mutagen/_util.py, then seek(0), write)
+   computes exactly the pure splice the model uses, on a fault-free file object of either flavour (C11 inside) *)
+Theorem C02_id3f_save_program : forall (real : bool) (part BUF : Z), 1 <= BUF ->
+  forall f p old data, 0 <= old <= zlen f ->
+  fst (id3_save_prog BUF old data (mkF f p (benign real part))) = Ok tt /\
+  fdata (snd (id3_save_prog BUF old data (mkF f p (benign real part)))) = splice f 0 old data.
+Proof. exact id3_save_prog_spec. Qed.
+Print Assumptions C02_id3f_save_program.
 
 (* the ID3v1 search never looks into the ID3v2 tag: what it finds on tag ++ payload is what it finds on the payload *)
 Theorem C02_id3f_search_ignores_tag : forall T m, find_id3v1 0 m = None -> find_id3v1 (zlen T) (T ++ m) = None.
